@@ -364,6 +364,7 @@ def _last_term_idiom(f):
                             lowk = k + (1 if a["op"] == ">" else 0)
             reads = [cn.c(x["c"][1]) for x in walk(loop["body"]) if x.get("k") == "ArraySubscriptExpr" and
                      "right_sides" in cn.c(x["c"][0])]
+            reads = [r for r in reads if "@i{" in r]          # the element subscript, not the rule subscript
             if lowk is not None and reads and start in ("($1 - 1)", "$1"):
                 off = 0
                 if all(r.startswith("(@i{") and r.endswith(" - 1)") for r in reads):
